@@ -350,6 +350,13 @@ func (s *ClientSession) handshake() error {
 func (s *ClientSession) runReadLoop() {
 	if err := s.chunkComposer.RunLoop(s.conn, s.doMsg); err != nil {
 		_ = s.dispose(err)
+		// Start (doContext) may still be waiting for the result of play / publish.  It watches errChan, not the
+		// connection: without this it would only return when its timeout expires - never, if there is none.
+		// Non-blocking: the channel has room for one error, and nobody reads it once Start has returned.
+		select {
+		case s.errChan <- err:
+		default:
+		}
 	}
 }
 
